@@ -257,6 +257,35 @@ def vs_position(kind, params, pts):
     raise ValueError(kind)
 
 
+SIGMA = {"TA": 0.3, "TB": 0.43, "TC": 0.52}
+
+
+def expected_size(template, sigma_of):
+    """size of a residue as the program documents it: radius of gyration of the atoms, each pushed
+    outwards from the centre of geometry by its own radius (atoms sitting on the centre only count
+    with their radius when nothing else is left)"""
+    names = list(template)
+    n = len(names)
+    rows = np.zeros((n, 3))
+    idx = 0
+    radii = []
+    for name in names:
+        vec = np.array(template[name], dtype=float)
+        length = float(np.linalg.norm(vec))
+        if length > 1e-18:
+            rows[idx] = vec + vec / length * sigma_of[name]
+            idx += 1
+        else:
+            radii.append(sigma_of[name])
+    if np.any(rows):
+        total = 0.0
+        for i in range(n):
+            for j in range(n):
+                total += float(np.dot(rows[i] - rows[j], rows[i] - rows[j]))
+        return math.sqrt(total / (2.0 * n * n))
+    return max(radii)
+
+
 def angle_deg(a, b, c):
     v1, v2 = a - b, c - b
     cosang = np.dot(v1, v2) / (np.linalg.norm(v1) * np.linalg.norm(v2))
@@ -413,6 +442,12 @@ def check(spec, ctx):
             user_vol = spec["build"]["volumes"].get(rd["resname"])
             if user_vol is not None and abs(vol - user_vol) > 1e-12:
                 raise Violation("volume:user_value_not_used", f"residue {rd['resname']}: size {vol}, build file says {user_vol}")
+            if user_vol is None:
+                sigma_of = {a["name"]: SIGMA[a["type"]] for a in res_atoms(rd)}
+                want = expected_size(tmpl, sigma_of)
+                if abs(vol - want) > 1e-6 * max(1.0, want):
+                    raise Violation("volume:not_from_own_template", f"residue {rd['resname']} (atoms {names}): size {vol:.6f}, its own "
+                                                                    f"template gives {want:.6f}")
             canon = canonical(rd)
             if canon in seen:
                 if seen[canon] != key:
